@@ -1136,12 +1136,16 @@ def rule_R14(text, applied):
         cp = match_close(m_text, op)
         inner, inner_m = text[op + 1:cp], m_text[op + 1:cp]
         parts = split_top_level(inner_m, inner)
+        while len(parts) > 1 and not parts[-1].strip():
+            parts.pop()          # trailing comma
         which = m.group(1)
         clos = parts[-1].strip()
-        cm = re.match(r"\|\s*(&?\s*\w+)\s*\|\s*(.*)$", clos, re.S)
+        cm = re.match(r"\|\s*([^|]+?)\s*\|\s*(.*)$", clos, re.S)
         if not cm or (which == "map_or" and len(parts) != 2) or (which != "map_or" and len(parts) != 1):
             raise ExtractError(f"R14: `{which}` argument is not a closure literal (outside the subset)")
-        pat, body = cm.group(1).replace(" ", ""), cm.group(2).strip()
+        pat, body = " ".join(cm.group(1).split()), cm.group(2).strip()
+        if re.fullmatch(r"&\s*\w+", pat):
+            pat = pat.replace(" ", "")
         start = _receiver_start(m_text, m.start())
         recv = text[start:m.start()]
         if which == "map_or":
@@ -1897,7 +1901,7 @@ def rule_R21(text, applied, arg=None):
 
 def rule_subst(text, applied, arg=None):
     """literal type substitution OLD=>NEW inside the item (e.g. `Box<dyn Any>` => an opaque type parameter)."""
-    old, new = arg.replace("~", " ").split("=>")
+    old, new = arg.replace("~", " ").replace("%2C", ",").split("=>")
     n = text.count(old)
     applied.append(f"subst({old}=>{new})x{n}")
     return text.replace(old, new)
@@ -2033,6 +2037,21 @@ def apply_callblocks(src, selector, start, end, raw, sections, emitter):
                 raise ExtractError(f"{selector}: callblock {bn}: statements follow the block inside its enclosing braces (construct outside the composed subset)")
         call = " ".join(sections[key].split())
         reps.append((a, b, call, bn))
+        del sections[key]
+    for key in list(sections):
+        if not key.startswith("dropitem "):
+            continue
+        # `//@dropitem struct NAME`: a local item declared inside the body that was extracted as a top-level item
+        # before (Verus has no items inside function bodies); its text is blanked
+        kind_, nm_ = key.split()[1], key.split()[2]
+        if not [it for it in emitter.items if it["kind"] == kind_ and it["name"] == nm_ and it["file"] == src.rel]:
+            raise ExtractError(f"{selector}: dropitem {nm_}: the item was not extracted before this function")
+        im = re.search(r"\b" + kind_ + r"\s+" + re.escape(nm_) + r"\s*\{", src.masked[start:end])
+        if not im:
+            raise ExtractError(f"{selector}: dropitem {nm_}: local item not found (lost anchor)")
+        a = start + im.start()
+        b = match_close(src.masked, start + im.end() - 1) + 1
+        reps.append((a, b, "", "item " + nm_))
         del sections[key]
     reps.sort()
     for (a, b, _, bn), (a2, b2, _, bn2) in zip(reps, reps[1:]):
